@@ -65,6 +65,9 @@ type Input struct {
 	Coords [][]float64 // low-level coordinate arguments (each with spare capacity)
 	Flat   []float64   // flat coordinate argument for *Flat functions
 	Layout geom.Layout
+	// BadT is a geometry that no text/binary encoder can finish: a collection whose LAST member
+	// has a layout the format cannot carry, so the encoder fails after it has written the others
+	BadT geom.T
 
 	// kept holds the live results of the calls made on this input (the very values the library
 	// returned, not renderings), so that they can be rendered again after LATER calls: a result
@@ -161,6 +164,9 @@ func geomKey(sb *strings.Builder, t geom.T) {
 func (in *Input) Snapshot() string {
 	var sb strings.Builder
 	geomKey(&sb, in.T)
+	if in.BadT != nil {
+		geomKey(&sb, in.BadT)
+	}
 	fmt.Fprintf(&sb, "|wkb=%x|ewkb=%x|hex=%s|wkt=%s|json=%s|igc=%x|", in.WKB[:cap(in.WKB)], in.EWKB[:cap(in.EWKB)], in.Hex, in.WKT, in.JSON[:cap(in.JSON)], in.IGC[:cap(in.IGC)])
 	for _, c := range in.Coords {
 		fmt.Fprintf(&sb, "c%d/%d=%s|", len(c), cap(c), bitsStr(c[:cap(c)]))
@@ -307,6 +313,31 @@ func initBuilders() {
 			return in
 		}})
 	}
+	// error paths: encoders that fail after writing part of their output, decoders that fail after
+	// reading part of their input (what a call leaves behind must not reach the next call)
+	for bi, last := range []func() geom.T{
+		func() geom.T { return geom.NewPointFlat(geom.Layout(5), spare([]float64{1, 2, 3, 4, 5})) },
+		func() geom.T { return geom.NewLineString(geom.NoLayout) },
+	} {
+		last := last
+		name := fmt.Sprintf("bad/encode%d", bi)
+		builders = append(builders, builder{name, func() *Input {
+			gc := geom.NewGeometryCollection()
+			gc.MustPush(geom.NewPointFlat(geom.XY, spare([]float64{1.25, 2.5})),
+				geom.NewLineStringFlat(geom.XY, spare([]float64{3.1, 4.2, 5.3, 6.4})), last())
+			return &Input{Name: name, BadT: gc}
+		}})
+	}
+	builders = append(builders, builder{"bad/decode", func() *Input {
+		m := ref.NewCollection(geom.NoLayout, ref.NewPoint(geom.XY, true, val()), ref.NewLine(ref.LineString, geom.XY, 2, val()), ref.NewPoint(geom.XY, true, val()))
+		w, e := ref.EncodeWKB(m, false, false), ref.EncodeWKB(m, true, true)
+		return &Input{Name: "bad/decode",
+			WKB: spareB(w[:len(w)-3]), EWKB: spareB(e[:len(e)-3]), Hex: fmt.Sprintf("%x", e[:len(e)-3]),
+			WKT:  "GEOMETRYCOLLECTION (POINT (1.5 2.5), LINESTRING (3 4, 5 6), POINT (7))",
+			JSON: spareB([]byte(`{"type":"GeometryCollection","geometries":[{"type":"Point","coordinates":[1.5,2.5]},{"type":"LineString","coordinates":[[1,2],[3]]}]}`)),
+			IGC:  spareB([]byte("AXXX001\r\nHFDTE150785\r\nB1101015206343N00006198WA005870055812\r\nB11010252063XXN00006199WA005880055934\r\nB1101035206345N00006200WA005890055935\r\n")),
+		}
+	}})
 	igcText := "AXXX001\r\nHFDTE150785\r\nI013637LAD\r\nB1101015206343N00006198WA005870055812\r\nB1101025206344N00006199WA005880055934\r\nLXXXnote\r\n"
 	builders = append(builders, builder{"igc", func() *Input {
 		return &Input{Name: "igc", IGC: spareB([]byte(igcText)), Layout: geom.Layout(5),
@@ -722,6 +753,15 @@ func Registry() []Fn {
 		{"wkt.Encoder.Encode", hasGeom, func(in *Input) string {
 			s, err := wkt.NewEncoder(wkt.EncodeOptionWithMaxDecimalDigits(4)).Encode(in.T)
 			return in.fp(s, err)
+		}},
+		{"encoders(last member unencodable)", func(in *Input) bool { return in.BadT != nil }, func(in *Input) string {
+			s, e1 := wkt.Marshal(in.BadT)
+			s2, e2 := wkt.NewEncoder(wkt.EncodeOptionWithMaxDecimalDigits(3)).Encode(in.BadT)
+			b, e3 := wkb.Marshal(in.BadT, wkb.NDR)
+			b2, e4 := ewkb.Marshal(in.BadT, ewkb.XDR)
+			h, e5 := ewkbhex.Encode(in.BadT, ewkbhex.NDR)
+			h2, e6 := wkbhex.Encode(in.BadT, wkbhex.XDR)
+			return fmt.Sprintf("%q %v|%q %v|%x %v|%x %v|%s %v|%s %v", s, e1 != nil, s2, e2 != nil, b, e3 != nil, b2, e4 != nil, h, e5 != nil, h2, e6 != nil)
 		}},
 		// decoders
 		{"wkb.Unmarshal+Scan", func(in *Input) bool { return in.WKB != nil }, func(in *Input) string {
